@@ -25,7 +25,7 @@ var likeAlphabet = []string{"a", "b", "c", "A", "B", "C", "x", "Z", "0", "1", " 
 	"ı", "ſ", "ɐ", "ɑ", "ⱥ", "Ⱥ", "µ", "K", "k", "K", "ǅ", "ǆ", "Ǆ", "\u0080", "\u0085", "\u009f", " ", "😀", "日", "ǰ", "ŉ", "İ", "i", "I", "_", "-",
 	"$", ".", "*", "(", "^", "+", "\\", "[", "$", "\n", "\n", "\t", "\r", ".", ".*"}
 var likeMeta = []string{".", "*", "+", "?", "(", ")", "[", "]", "{", "}", "^", "$", "\\", ".*", "[a-c]", "(a|b)", "\\d", "a+",
-	"\\$", "\\^", "\\.", "\\(", "\\\\", "\\w+", "\\x{e9}", "(?s).", "\\pL", "$", "^"}
+	"\\$", "\\^", "\\.", "\\(", "\\\\", "\\w+", "\\x{e9}", "(?s).", "\\pL", "$", "^", "[^-~]+", "[:-_]+", "\\141", "\\x61", "[\\x41-\\x5a]", "\\x{e9}+"}
 
 // letters whose upper-case form is one byte longer / shorter in UTF-8
 var likeExpanders = []string{"ɐ", "ɑ", "ɫ", "ɽ", "ȿ", "ɀ", "ɒ", "ɜ"}
@@ -192,12 +192,13 @@ func propC18(t *rapid.T) {
 			}
 			tab.Cols[1].Enum = decl
 		}
+		wrap := rapid.SampledFrom([]string{"plain", "plain", "or(other,like)", "or(like,other)", "and(other,like)", "or(other,other2,like)"}).Draw(t, "wrap")
 		desc := func() string {
 			cs := make([]string, n)
 			for i, p := range cells {
 				cs[i] = ptrStr(p)
 			}
-			return fmt.Sprintf("cells %s\n%s pattern %q (%+q) inverse=%v unused enum values declared first: %d", strings.Join(cs, " "), comp, pattern, pattern, inverse, fillers)
+			return fmt.Sprintf("cells %s\n%s pattern %q (%+q) inverse=%v unused enum values declared first: %d wrap=%s", strings.Join(cs, " "), comp, pattern, pattern, inverse, fillers, wrap)
 		}
 		qf := hx.Build(tab)
 		if qf.Err != nil {
@@ -205,9 +206,25 @@ func propC18(t *rapid.T) {
 		}
 		match, merr := hx.LikeModel(pattern, comp == "ilike")
 		var results [2]qframe.QFrame
+		// the pattern filter alone, or as one of several sub-clauses (the matchers then work on a selection that other
+		// sub-clauses have already written to)
+		half := n / 2
 		for i, col := range []string{"s", "e"} {
 			f := qframe.Filter{Column: col, Comparator: comp, Arg: pattern, Inverse: inverse}
-			if perr := hx.Safely(func() { results[i] = qf.Filter(f) }); perr != nil {
+			other := qframe.Filter{Column: "id", Comparator: "<", Arg: half}
+			other2 := qframe.Filter{Column: "id", Comparator: "=", Arg: n - 1}
+			var f2 qframe.FilterClause = f
+			switch wrap {
+			case "or(other,like)":
+				f2 = qframe.Or(other, f)
+			case "or(like,other)":
+				f2 = qframe.Or(f, other)
+			case "and(other,like)":
+				f2 = qframe.And(other, f)
+			case "or(other,other2,like)":
+				f2 = qframe.Or(other, other2, f)
+			}
+			if perr := hx.Safely(func() { results[i] = qf.Filter(f2) }); perr != nil {
 				t.Fatalf("Filter on %s panicked: %v\n%s", col, perr, desc())
 			}
 		}
@@ -225,6 +242,14 @@ func propC18(t *rapid.T) {
 			m := p != nil && match(*p)
 			if inverse {
 				m = !m
+			}
+			switch wrap {
+			case "or(other,like)", "or(like,other)":
+				m = m || r < half
+			case "and(other,like)":
+				m = m && r < half
+			case "or(other,other2,like)":
+				m = m || r < half || r == n-1
 			}
 			if m {
 				keep = append(keep, r)
